@@ -6,7 +6,8 @@ from .. import gen
 from ..common import cnat, cbool, clist, copt, coq_eval
 from ..impl import Impl
 
-IMPORTS = ['Base.Util', 'Model.Bfs', 'Model.Structure', 'Model.Cycles']
+IMPORTS = ['Base.Util', 'Model.Bfs', 'Model.Structure', 'Model.Cycles', 'Gen.CyclesCode']
+GEN_FILES = ['CyclesCode.v']
 PRELUDE = '''
 Definition show_largest (r : result (pmat * list nat)) : result (nat * graph * list nat) :=
   match r with Ok (m, i) => Ok (p_ncol m, p_rows m, i) | Err e => Err e end.
@@ -417,7 +418,7 @@ def run(ctx, scratch):
             comp2 = oracle_labels(r, 1 if first_reaches_oracle else 0, None)
             root = a['root']
             rl = [root['int']] if isinstance(root, dict) else list(root)
-            e = 'break_cycles %s %s %s %s %s' % (cgraph(mt['n'], mt['E']), cnats(rl), cdir(a['directed']),
+            e = 'break_cycles bc_und_visits_other_components %s %s %s %s %s' % (cgraph(mt['n'], mt['E']), cnats(rl), cdir(a['directed']),
                                                   cnats(comp1), cnats(comp2))
         exprs[k].append(e)
         index[k].append(i)
